@@ -267,7 +267,9 @@ def build_harness(name, tags="verif", race=False, timeout=900):
 
 def eval_shard(path, timeout=1500):
     d = os.path.dirname(path)
-    rc, out = run(["coqc", "-Q", COQ, "GoHls", "-w", "-all", os.path.basename(path)], cwd=d, timeout=timeout)
+    # large case files (long list literals) overflow coqc's default 8 MB stack while being parsed
+    rc, out = run(["bash", "-c", 'ulimit -s unlimited 2>/dev/null || ulimit -s 1000000 2>/dev/null; exec coqc -Q "$0" GoHls -w -all "$1"',
+                   COQ, os.path.basename(path)], cwd=d, timeout=timeout)
     for ext in (".vo", ".vok", ".vos", ".glob"):
         try:
             os.remove(path[:-2] + ext)
